@@ -21,7 +21,7 @@ pub enum ApiResponse<T> {
 }
 
 /// API errors that can be received when interacting with the tower. Error codes match `teos_common::errors`.
-#[derive(Serialize, Deserialize, Debug)]
+#[derive(Serialize, Deserialize, Debug, PartialEq, Eq)]
 pub struct ApiError {
     pub error: String,
     pub error_code: u8,
@@ -33,6 +33,8 @@ pub enum RequestError {
     ConnectionError(String),
     DeserializeError(String),
     Unexpected(String),
+    /// The tower replied with an error (the error message and code are the ones sent by the tower).
+    ApiError(ApiError),
 }
 
 impl RequestError {
@@ -63,7 +65,7 @@ pub async fn register(
     proxy: &Option<ProxyInfo>,
 ) -> Result<RegistrationReceipt, RequestError> {
     log::info!("Registering in the Eye of Satoshi (tower_id={tower_id})");
-    process_post_response(
+    match process_post_response(
         post_request(
             tower_net_addr,
             Endpoint::Register,
@@ -74,16 +76,19 @@ pub async fn register(
         )
         .await,
     )
-    .await
-    .map(|r: common_msgs::RegisterResponse| {
-        RegistrationReceipt::with_signature(
-            user_id,
-            r.available_slots,
-            r.subscription_start,
-            r.subscription_expiry,
-            r.subscription_signature,
-        )
-    })
+    .await?
+    {
+        ApiResponse::Response::<common_msgs::RegisterResponse>(r) => {
+            Ok(RegistrationReceipt::with_signature(
+                user_id,
+                r.available_slots,
+                r.subscription_start,
+                r.subscription_expiry,
+                r.subscription_signature,
+            ))
+        }
+        ApiResponse::Error(e) => Err(RequestError::ApiError(e)),
+    }
 }
 
 /// Encapsulates the logging and response parsing of sending and appointment to the tower.
